@@ -16,6 +16,14 @@ public tree-editing call: Success (list effect, WellFormed') or Refuse
     IsSuccessOf / IsRefusalOf): raised => unchanged (RefusalAtomic), returned
     => WellFormed; a well-formed post-state that is not the list effect is a
     DIVERGENCE (counted, not a violation).  TLC's verdict lines decide.
+
+Binding B (code -> spec, c14_suite / c14_recorder / c14_pytest_recorder): a
+subset of the repository's own tests runs under a recorder of the top-level
+public tree-editing calls; every distinct recorded call (local state before,
+call, outcome, local state after) is validated by TLC with
+spec/Trace_PSyIRTree_Local.tla: raised => unchanged; returned =>
+LocalParentChildAgree / LocalValidAtPosition / LocalAcyclic of PSyIRTree.tla.
+PV_C14_BINDINGS=A|B|AB selects the bindings (demonstrations).
 '''
 import json
 import os
